@@ -17,7 +17,7 @@ ID = "C05"
 LEVEL = "exploration"
 TECHNIQUE = "bounded-exhaustive lattice of (start, dt, n) + random decimals (Hypothesis) vs decimal reference grid"
 RULE = ("cases = (start, dt, n) triples, stop = start + n*dt in Decimal; full lattice of 9 starts x 12 dts x n in 0..N "
-        "plus Hypothesis-drawn decimals with <= 3 fractional digits; every reported index/key list must equal the decimal "
+        "plus Hypothesis-drawn decimals with <= 3 fractional digits; stocks with inline step/time rates, a session that halves dt after a batch run; every reported index/key list must equal the decimal "
         "grid exactly (length, order, float equality with the decimal literal). non-trivial = dt not exactly "
         "representable in binary and n >= 3 (float drift possible); distinct by triple")
 ASSUMPTIONS = [
